@@ -2,6 +2,7 @@
 with the Lean heap model after every step of generated edit histories, plus the direct oracle (pre-order of the
 children lists) on the real objects."""
 import json
+from harness.common import Hang, arm as common_arm, disarm as common_disarm
 from collections import Counter
 
 from .common import Ctx, Driver
@@ -53,37 +54,44 @@ def run_history(ctx: Ctx, rng, idx: int, steps: int, iters: bool, stream: str, c
             ctx.violation("parsed tree is not one consistent tree: " + msg, case={"kinds": kinds, "ops": ops, "parsed": True}, stream=stream)
     nontrivial = False
     copy_used = False
-    for s in range(steps):
-        op = heapsim.gen_op(rng, w, stats, copies=copies)
-        if op is None:
-            break
-        ops.append(op)
-        if copies and any(a in w.copy_labels for a in op_labels(op)):
-            copy_used = True
-            ctx.count("cp:later-step-uses-a-node-of-a-copy")
-        st = w.apply(op)
-        ctx.count("op:" + op.split(":")[0])
-        ctx.count("outcome:" + st)
-        if op.startswith("cp:") and st == "ok" and w.copy_oracle_msg:
+    try:
+        for s in range(steps):
+            common_arm(60)
+            op = heapsim.gen_op(rng, w, stats, copies=copies)
+            if op is None:
+                break
+            ops.append(op)
+            if copies and any(a in w.copy_labels for a in op_labels(op)):
+                copy_used = True
+                ctx.count("cp:later-step-uses-a-node-of-a-copy")
+            st = w.apply(op)
+            ctx.count("op:" + op.split(":")[0])
+            ctx.count("outcome:" + st)
+            if op.startswith("cp:") and st == "ok" and w.copy_oracle_msg:
+                real_dumps.append(("ok", w.dump(iters)))
+                ctx.violation("a copy is not a self-contained new tree beside an untouched forest: " + w.copy_oracle_msg,
+                              case={"kinds": kinds, "ops": ops, "parsed": parsed, "twin": getattr(w, "twin_choices", None)},
+                              observed=w.copy_oracle_msg, stream=stream)
+                break
+            if st != "ok":
+                real_dumps.append((st, None))
+                # a call that raises is still a call: it must not leave the forest half-edited
+                msg = heapsim.oracle_c01(w)
+                if msg:
+                    ctx.violation(f"after a call that raised ({st}) the views no longer describe one tree: " + msg,
+                                  case={"kinds": kinds, "ops": ops, "parsed": parsed, "twin": getattr(w, "twin_choices", None)}, observed=msg, stream=stream)
+                break
             real_dumps.append(("ok", w.dump(iters)))
-            ctx.violation("a copy is not a self-contained new tree beside an untouched forest: " + w.copy_oracle_msg,
-                          case={"kinds": kinds, "ops": ops, "parsed": parsed, "twin": getattr(w, "twin_choices", None)},
-                          observed=w.copy_oracle_msg, stream=stream)
-            break
-        if st != "ok":
-            real_dumps.append((st, None))
-            # a call that raises is still a call: it must not leave the forest half-edited
             msg = heapsim.oracle_c01(w)
             if msg:
-                ctx.violation(f"after a call that raised ({st}) the views no longer describe one tree: " + msg,
+                ctx.violation("after this history the views no longer describe one tree: " + msg,
                               case={"kinds": kinds, "ops": ops, "parsed": parsed, "twin": getattr(w, "twin_choices", None)}, observed=msg, stream=stream)
-            break
-        real_dumps.append(("ok", w.dump(iters)))
-        msg = heapsim.oracle_c01(w)
-        if msg:
-            ctx.violation("after this history the views no longer describe one tree: " + msg,
-                          case={"kinds": kinds, "ops": ops, "parsed": parsed, "twin": getattr(w, "twin_choices", None)}, observed=msg, stream=stream)
-            break
+                break
+    except Hang:
+        ctx.violation(f"{ops[-1] if ops else '?'}: the call, or a traversal of the forest it left, did not return within 60 s (a link chain that loops)",
+                      case={"kinds": kinds, "ops": ops, "parsed": parsed, "twin": getattr(w, "twin_choices", None)}, observed="no return", stream=stream)
+    finally:
+        common_disarm()
     for k, v in stats.items():
         ctx.count(k, v)
         if k in ("arg:same-parent", "arg:elsewhere", "arg:soup", "arg:repeat") and v:
